@@ -342,6 +342,7 @@ func runC16(w *mon.W) {
 			if p := mon.Try(func() { ex = rebase.Export(got) }); p != "" {
 				w.Violation(id, "rebase.Export: "+p, rep)
 			} else {
+				retainBytesCheck(w, id, "Export", ex, fmt.Sprintf("rebase.Export of %d entries", len(got)))
 				var back map[string]rebase.Enzyme
 				if err := json.Unmarshal(ex, &back); err != nil {
 					w.Violation(id, fmt.Sprintf("rebase.Export output is not valid JSON: %v", err), rep)
